@@ -1,14 +1,12 @@
-(* C19 end to end for .properties: lint of a file given as TEXT (Model/LintProps.v:
-   parser model, entity objects, Entry.equals, the linter) on the text of a block list
-   with garbage regions and repeated keys (Proofs/C02BlocksJunk.v), against the text of a
-   legal block list as reference, yields exactly the findings computed from the blocks. *)
+(* C19 end to end for .properties: the block lists of Proofs/C02BlocksJunk.v as item lists
+   (Proofs/LintE2E.v), the objects the parser model yields for them, and the theorem. *)
 From Coq Require Import ZArith NArith List Bool Arith Lia.
 From CL Require Import Base.Sx Base.Res Base.Str Regex.Rx Model.Entry Model.Parse
   Model.ParseFormats Model.Unescape Model.CheckProps Model.LineCol Model.AddRemove Model.Lint
   Model.LintProps
   Proofs.AddRemoveProofs Proofs.LineColProofs Proofs.LintProofs Proofs.C02Roundtrip
   Proofs.C02BlocksRx Proofs.C02BlocksVal Proofs.C02Blocks Proofs.C02BlocksJunkRx
-  Proofs.C02BlocksJunk Proofs.CheckDTDProofs.
+  Proofs.C02BlocksJunk Proofs.PropsValTotal Proofs.LintE2E.
 Import ListNotations.
 Open Scope nat_scope.
 
@@ -18,43 +16,47 @@ Local Arguments vraw : simpl never.
 Local Arguments str_of_nat : simpl never.
 
 Ltac norm_app := repeat (progress (rewrite <- ?app_assoc; cbn [app])).
+Ltac len := rewrite ?app_length; cbn [length]; rewrite ?app_length; cbn [length]; lia.
 
-(* ---- the entity objects of a block list ---------------------------------------------- *)
-(* [pre]: the text before the blocks; offsets are lengths of prefixes *)
-Fixpoint exp_entities (s : str) (j : nat) (pre : str) (bs : list jblock) : list (@entity str) :=
-  match bs with
-  | [] => []
-  | JG gl :: rest =>
-      let a := length pre in
-      let e := a + length (gtext gl) in
-      mkEntity a (junk_key (S j) (a, e)) true (gtext gl)
-               (entry_position s (zspan (a, e))) (fun _ => Raise NotSupported)
-      :: exp_entities s (S j) (pre ++ gtext gl) rest
-  | JB (BEntity cs key b1 sc b2 conts lastl nl) :: rest =>
-      let k := length (pre ++ ctext cs) in
-      let v := k + length key + length b1 + 1 + length b2 in
-      let e := v + length (vraw conts lastl) in
-      mkEntity k key false (vraw conts lastl)
-               (entry_position s (zspan (k, e))) (entry_value_position s (Some (zspan (v, e))))
-      :: exp_entities s j (pre ++ text (BEntity cs key b1 sc b2 conts lastl nl)) rest
-  | JB b :: rest => exp_entities s j (pre ++ text b) rest
+(* ---- blocks as items ---------------------------------------------------------------------- *)
+Definition pitem (jb : jblock) : item :=
+  match jb with
+  | JB (BBlank w) => IOther w
+  | JB (BComment cs) => IOther (ctext cs)
+  | JB (BEntity cs key b1 sc b2 conts lastl nl) =>
+      IEnt (ctext cs) [] key (b1 ++ sc :: b2) (vraw conts lastl) [] (eol nl)
+  | JG gl => IJunk (gtext gl)
   end.
+
+Lemma pitem_text : forall jb, item_text (pitem jb) = jtext jb.
+Proof.
+  intros [[w|cs|cs key b1 sc b2 conts lastl nl]|gl]; cbn [pitem item_text jtext text]; try reflexivity.
+  norm_app. reflexivity.
+Qed.
+
+Lemma pitems_text : forall bs, items_text (map pitem bs) = jfile_text bs.
+Proof.
+  induction bs as [|b bs IH]; [reflexivity|].
+  cbn [map]. rewrite items_text_cons, jfile_text_cons, pitem_text, IH. reflexivity.
+Qed.
 
 Lemma loc_flush : forall off w, filter is_localizable (flush off w) = [].
 Proof. intros off [|w]; reflexivity. Qed.
 
+Notation vp_props := entry_value_position.
+
 Lemma ents_entities : forall bs, Forall legal_jblock bs -> forall (a w : str) j,
   let s := a ++ w ++ jfile_text bs in
-  props_entities s j (filter is_localizable (jents (length a) (length w) bs)) =
-  exp_entities s j (a ++ w) bs.
+  fmt_entities vp_props s j (filter is_localizable (jents (length a) (length w) bs)) =
+  gen_entities vp_props s j (a ++ w) (map pitem bs).
 Proof.
   induction bs as [|b rest IH]; intros Hleg a w j s.
   - simpl jents. rewrite loc_flush. reflexivity.
   - inversion Hleg as [|b' rest' Hb Hrest]; subst b' rest'. specialize (IH Hrest).
-    destruct b as [[x|cs|cs key b1 sc b2 conts lastl nl]|gl].
+    destruct b as [[x|cs|cs key b1 sc b2 conts lastl nl]|gl]; cbn [map pitem gen_entities].
     + assert (Hs : s = a ++ (w ++ x) ++ jfile_text rest).
       { unfold s. rewrite jfile_text_cons. cbn [jtext text]. rewrite <- app_assoc. reflexivity. }
-      simpl jents. rewrite <- app_length. cbn [exp_entities text].
+      simpl jents. rewrite <- app_length.
       rewrite Hs. rewrite (IH a (w ++ x) j). f_equal. apply app_assoc.
     + unfold legal_jblock in Hb. cbn [legal_jblockb legal_blockb] in Hb. apply andb_true_iff in Hb.
       destruct Hb as [Hc1 _].
@@ -66,7 +68,7 @@ Proof.
       assert (El : length a + length w + length (cbody cs) = length A0)
         by (unfold A0; rewrite !app_length; lia).
       simpl jents. rewrite !filter_app, loc_flush, El. cbn [app filter is_localizable mk_comment Entry.e_kind].
-      cbn [props_entities mk_comment Entry.e_kind exp_entities text].
+      cbn [fmt_entities mk_comment Entry.e_kind].
       change 1 with (length [10%N]). rewrite Hs, (IH A0 [10%N] j).
       f_equal. unfold A0. rewrite (ctext_body cs Hne). norm_app. reflexivity.
     + set (raw := vraw conts lastl).
@@ -82,9 +84,7 @@ Proof.
       assert (Ee : length V0 + length raw = length A0) by (unfold A0; rewrite app_length; lia).
       simpl jents. fold raw. rewrite !filter_app, loc_flush, Ek, Ev, Ee.
       cbn [app filter is_localizable Entry.e_kind].
-      cbn [props_entities Entry.e_kind Entry.e_span Entry.e_key Entry.e_val fst snd osp_text option_map
-           exp_entities].
-      fold raw.
+      cbn [fmt_entities Entry.e_kind Entry.e_span Entry.e_key Entry.e_val fst snd osp_text option_map].
       assert (S1 : sp_text s (length K0, length K0 + length key) = key).
       { unfold sp_text. cbn [fst snd]. unfold s. rewrite jfile_text_cons. cbn [jtext text]. fold raw.
         replace (a ++ w ++ (ctext cs ++ key ++ b1 ++ sc :: b2 ++ raw ++ eol nl) ++ jfile_text rest)
@@ -94,11 +94,14 @@ Proof.
       assert (S2 : sp_text s (length V0, length A0) = raw).
       { unfold sp_text. cbn [fst snd]. rewrite <- Ee, Hs. unfold A0. rewrite <- app_assoc. apply slice_mid. }
       rewrite S1, S2.
-      assert (EK : length ((a ++ w) ++ ctext cs) = length K0) by (unfold K0; rewrite <- app_assoc; reflexivity).
-      rewrite EK, Ev, Ee.
       f_equal.
-      rewrite Hs, (IH A0 (eol nl) j). f_equal.
-      unfold A0, V0, K0. cbn [text]. fold raw. norm_app. reflexivity.
+      * apply mk_ent_eq.
+        -- unfold K0. len.
+        -- rewrite <- Ee, <- Ev. unfold K0. len.
+        -- rewrite <- Ev. unfold K0. len.
+        -- rewrite <- Ee, <- Ev. unfold K0. len.
+      * rewrite Hs, (IH A0 (eol nl) j). f_equal.
+        unfold A0, V0, K0. cbn [item_text]. fold raw. norm_app. reflexivity.
     + set (A0 := a ++ w ++ gtext gl).
       assert (Hs : s = A0 ++ [] ++ jfile_text rest).
       { unfold s, A0. rewrite jfile_text_cons. cbn [jtext]. norm_app. reflexivity. }
@@ -106,374 +109,99 @@ Proof.
         by (unfold A0; rewrite !app_length; lia).
       simpl jents. rewrite !filter_app, loc_flush, El.
       cbn [app filter is_localizable mk_junk Entry.e_kind].
-      cbn [props_entities mk_junk Entry.e_kind Entry.e_span fst snd exp_entities].
-      assert (Ea : length a + length w = length (a ++ w)) by (rewrite app_length; reflexivity).
-      rewrite Ea.
-      assert (El' : length (a ++ w) + length (gtext gl) = length A0)
-        by (unfold A0; rewrite !app_length; lia).
-      rewrite El'.
-      assert (S1 : sp_text s (length (a ++ w), length A0) = gtext gl).
-      { unfold sp_text. cbn [fst snd]. rewrite <- El'.
+      cbn [fmt_entities mk_junk Entry.e_kind Entry.e_span fst snd].
+      assert (S1 : sp_text s (length a + length w, length A0) = gtext gl).
+      { unfold sp_text. cbn [fst snd]. rewrite <- El, <- app_length.
         replace s with ((a ++ w) ++ gtext gl ++ jfile_text rest)
           by (unfold s; rewrite jfile_text_cons; cbn [jtext]; norm_app; reflexivity).
         apply slice_mid. }
       rewrite S1. f_equal.
-      change 0 with (length (@nil N)). rewrite Hs, (IH A0 [] (S j)). f_equal.
-      unfold A0. norm_app. rewrite app_nil_r. reflexivity.
+      * apply mk_junk_eq; [len|rewrite <- El; len].
+      * change 0 with (length (@nil N)). rewrite Hs, (IH A0 [] (S j)). f_equal.
+        unfold A0. norm_app. rewrite app_nil_r. reflexivity.
 Qed.
 
-(* ---- what the blocks say -------------------------------------------------------------- *)
-(* number of entity blocks with the key *)
-Fixpoint key_occurrences (k : str) (bs : list jblock) : nat :=
-  match bs with
-  | [] => 0
-  | JB (BEntity _ key _ _ _ _ _ _) :: rest => (if str_eqb k key then 1 else 0) + key_occurrences k rest
-  | _ :: rest => key_occurrences k rest
-  end.
+(* the parser model parses the text of a legal block list to the objects of its items *)
+Theorem parsed_properties : forall bs, Forall legal_jblock bs -> jadjacent_ok bs ->
+  parsed vp_props walk_properties (map pitem bs).
+Proof.
+  intros bs Hleg Hadj. exists (jentries_of bs). rewrite pitems_text. split.
+  - apply blocks_properties_junk; assumption.
+  - intros j. exact (ents_entities bs Hleg [] [] j).
+Qed.
 
-(* raw value of the LAST entity block of the reference with the key *)
-Fixpoint ref_value (k : str) (rbs : list block) : option str :=
-  match rbs with
-  | [] => None
-  | b :: rest =>
-      match ref_value k rest with
-      | Some v => Some v
-      | None => match b with
-                | BEntity _ key _ _ _ conts lastl _ =>
-                    if str_eqb k key then Some (vraw conts lastl) else None
-                | _ => None
-                end
-      end
-  end.
+Lemma pitem_keys : forall bs,
+  Forall (fun jb => match jb with
+                    | JB (BEntity _ key _ _ _ _ _ _) => starts_with s_junk_ key = false
+                    | _ => True
+                    end) bs ->
+  Forall item_key_ok (map pitem bs).
+Proof.
+  induction 1 as [|b bs Hb _ IH]; constructor; [|exact IH].
+  destruct b as [[w|cs|cs key b1 sc b2 conts lastl nl]|gl]; exact Hb || exact I.
+Qed.
 
-(* premises on the keys and values of a file *)
+(* ---- the statement in terms of blocks ------------------------------------------------------- *)
+(* premise on the keys of the linted file: none is spelt like the key of a Junk object *)
 Definition block_key_ok (jb : jblock) : Prop :=
   match jb with
-  | JB (BEntity _ key _ _ _ conts lastl _) =>
-      starts_with s_junk_ key = false /\ exists v, props_val (vraw conts lastl) = Ok v
+  | JB (BEntity _ key _ _ _ _ _ _) => starts_with s_junk_ key = false
   | _ => True
   end.
 
-(* the unescaped value, where props_val returns *)
-Definition uval (raw : str) : str := match props_val raw with Ok v => v | Raise _ => raw end.
-
-(* (line, column), 1-based, of the character that follows the prefix [pre]: newlines in
-   [pre] plus one, characters since its last newline plus one (C17) *)
-Definition lc (pre : str) : pos :=
-  (Z.of_nat (1 + count_nl pre), Z.of_nat (1 + LineCol.cur 0 pre)).
-
-Lemma starts_with_app : forall p x, starts_with p (p ++ x) = true.
-Proof. induction p as [|c p IH]; intros x; cbn; [reflexivity|]. rewrite N.eqb_refl, IH. reflexivity. Qed.
-
-Lemma junk_key_neq : forall k n sp, starts_with s_junk_ k = false -> str_eqb k (junk_key n sp) = false.
-Proof.
-  intros k n sp H. destruct (str_eqb k (junk_key n sp)) eqn:E; [|reflexivity].
-  apply str_eqb_eq in E. subst k. unfold junk_key in H. rewrite starts_with_app in H. discriminate.
-Qed.
-
-Lemma kcount_exp : forall k, starts_with s_junk_ k = false -> forall bs s j pre,
-  kcount str_eqb k (exp_entities s j pre bs) = key_occurrences k bs.
-Proof.
-  intros k Hk. induction bs as [|b rest IH]; intros s j pre; [reflexivity|].
-  destruct b as [[x|cs|cs key b1 sc b2 conts lastl nl]|gl]; cbn [exp_entities key_occurrences].
-  - apply IH.
-  - apply IH.
-  - unfold kcount in *. cbn [filter Lint.e_key]. destruct (str_eqb k key); cbn [length]; rewrite IH; reflexivity.
-  - unfold kcount in *. cbn [filter Lint.e_key]. rewrite junk_key_neq by exact Hk. apply IH.
-Qed.
-
-Lemma last_with_exp : forall k rbs s j pre,
-  match last_with str_eqb Lint.e_key k (exp_entities s j pre (map JB rbs)) with
-  | Some r => Lint.e_key r = k /\ e_junk r = false /\ ref_value k rbs = Some (e_raw r)
-  | None => ref_value k rbs = None
-  end.
-Proof.
-  intros k. induction rbs as [|b rest IH]; intros s j pre; [reflexivity|].
-  destruct b as [x|cs|cs key b1 sc b2 conts lastl nl]; cbn [map exp_entities ref_value].
-  - specialize (IH s j (pre ++ text (BBlank x))).
-    destruct (last_with _ _ _ _) as [r|]; [destruct IH as (A1 & A2 & A3); rewrite A3; auto|].
-    rewrite IH. reflexivity.
-  - specialize (IH s j (pre ++ text (BComment cs))).
-    destruct (last_with _ _ _ _) as [r|]; [destruct IH as (A1 & A2 & A3); rewrite A3; auto|].
-    rewrite IH. reflexivity.
-  - cbn [last_with]. specialize (IH s j (pre ++ text (BEntity cs key b1 sc b2 conts lastl nl))).
-    destruct (last_with _ _ _ _) as [r|]; [destruct IH as (A1 & A2 & A3); rewrite A3; auto|].
-    rewrite IH. cbn [Lint.e_key]. destruct (str_eqb k key) eqn:E; [|reflexivity].
-    apply str_eqb_eq in E. cbn [Lint.e_key e_junk e_raw]. auto.
-Qed.
-
-(* ---- positions -------------------------------------------------------------------------- *)
-Lemma firstn_pre : forall (pre rest : str), firstn (length pre) (pre ++ rest) = pre.
-Proof.
-  intros. rewrite firstn_app, firstn_all, Nat.sub_diag. cbn. apply app_nil_r.
-Qed.
-
-Lemma pos_at : forall (s pre rest : str), s = pre ++ rest ->
-  ctx_linecol s (Z.of_nat (length pre)) = Ok (lc pre).
-Proof.
-  intros s pre rest ->. rewrite ctx_linecol_spec.
-  - rewrite Nat2Z.id, firstn_pre. reflexivity.
-  - rewrite app_length. lia.
-Qed.
-
-Lemma entity_pos0 : forall (s pre rest : str) e, s = pre ++ rest ->
-  entry_position s (zspan (length pre, e)) 0%Z = Ok (lc pre).
-Proof.
-  intros s pre rest e H. unfold entry_position, zspan. cbn [fst snd].
-  change (0 <? 0)%Z with false. cbv iota. rewrite Z.add_0_r. exact (pos_at s pre rest H).
-Qed.
-
-Lemma junk_pos_end : forall (s pre g rest : str) a, s = (pre ++ g) ++ rest ->
-  entry_position s (zspan (a, length pre + length g)) (-1)%Z = Ok (lc (pre ++ g)).
-Proof.
-  intros s pre g rest a H. unfold entry_position, zspan. cbn [fst snd].
-  change (-1 <? 0)%Z with true. cbv iota. rewrite <- app_length. exact (pos_at s (pre ++ g) rest H).
-Qed.
-
-(* ---- the expected findings, from the blocks alone ---------------------------------------- *)
-Section E2E.
-Context {Msg : Type}.
-Variable chk : option (@checker str Msg).
-Variable all : list jblock.              (* the linted file *)
-Variable rref : option (list block).     (* the reference file, if any *)
-Variables j0 : nat.                      (* Junk.junkid before the run *)
-
-Notation finding := (@finding str Msg).
-
-(* the key is in the reference and its last value there unescapes to something else *)
-Definition changed_by_ref (key raw : str) : bool :=
-  match rref with
-  | Some rbs => match ref_value key rbs with
-                | Some v => negb (str_eqb (uval raw) (uval v))
-                | None => false
-                end
-  | None => false
-  end.
-
-Fixpoint expected (pre : str) (bs : list jblock) : list finding :=
-  match bs with
-  | [] => []
-  | JG gl :: rest =>
-      mkf (lc pre) LError (MJunk (length pre) (lc pre) (lc (pre ++ gtext gl)))
-      :: expected (pre ++ gtext gl) rest
-  | JB (BEntity cs key b1 sc b2 conts lastl nl) :: rest =>
-      let p := lc (pre ++ ctext cs) in
-      (if 1 <? key_occurrences key all then [mkf p LError (MDuplicate key)] else []) ++
-      (if changed_by_ref key (vraw conts lastl) then [mkf p LWarning (MChanged key)] else []) ++
-      expected (pre ++ text (BEntity cs key b1 sc b2 conts lastl nl)) rest
-  | JB b :: rest => expected (pre ++ text b) rest
-  end.
-
-Definition no_check (f : finding) : bool := negb (is_check f).
-
-Let s := jfile_text all.
-Let rtext := match rref with Some rbs => file_text rbs | None => [] end.
-Let reference := match rref with
-                 | Some rbs => Some (exp_entities rtext j0 [] (map JB rbs))
-                 | None => None
-                 end.
-Let cur_ents := exp_entities s j0 [] all.
-Let li := new_linter str_eqb cur_ents chk reference.
-
-Hypothesis ref_ok : match rref with
-                    | Some rbs => Forall (fun b => block_key_ok (JB b)) rbs
-                    | None => True
-                    end.
-
-Lemma ref_values_ok : forall rbs k v, Forall (fun b => block_key_ok (JB b)) rbs ->
-  ref_value k rbs = Some v -> exists u, props_val v = Ok u.
-Proof.
-  induction rbs as [|b rest IH]; intros k v Hf H; [discriminate|].
-  inversion Hf as [|? ? Hb Hr]; subst. cbn [ref_value] in H.
-  destruct (ref_value k rest) as [v'|] eqn:E.
-  - inversion H; subst. exact (IH k v Hr E).
-  - destruct b as [x|cs|cs key b1 sc b2 conts lastl nl]; try discriminate.
-    destruct (str_eqb k key); [|discriminate]. inversion H; subst. destruct Hb as [_ Hv]. exact Hv.
-Qed.
-
-Lemma verdict : forall k sp vp key raw u,
-  props_val raw = Ok u ->
-  ref_verdict str_eqb props_equals reference
-    (mkEntity k key false raw sp vp) = Ok (changed_by_ref key raw).
-Proof.
-  intros k sp vp key raw u Hu. unfold ref_verdict, changed_by_ref, reference, ref_entity.
-  cbn [Lint.e_key]. destruct rref as [rbs|]; [|reflexivity].
-  pose proof (last_with_exp key rbs rtext j0 []) as H.
-  destruct (last_with str_eqb Lint.e_key key (exp_entities rtext j0 [] (map JB rbs))) as [r|].
-  - destruct H as (A1 & A2 & A3). rewrite A3.
-    destruct (ref_values_ok rbs key (e_raw r) ref_ok A3) as [y Hy].
-    unfold props_equals, ent_val. cbn [Lint.e_key e_junk e_raw]. rewrite A1, A2.
-    rewrite (proj2 (str_eqb_eq key key) eq_refl), Hu, Hy. cbn.
-    unfold uval. rewrite Hu, Hy. reflexivity.
-  - rewrite H. reflexivity.
-Qed.
-
-Lemma nocheck_resolved : forall (e : @entity str) rs cks,
-  mapM (resolve (Msg := Msg) e) rs = Ok cks -> filter no_check cks = [].
-Proof.
-  intros e rs cks H. apply mapM_Forall2 in H.
-  induction H as [|r f rs cks Hr _ IH]; [reflexivity|].
-  apply resolve_resolved in Hr. destruct Hr as (p & _ & ->). cbn. exact IH.
-Qed.
-
-Lemma lint_blocks : forall bs pre j,
-  s = pre ++ jfile_text bs -> Forall block_key_ok bs ->
-  (forall fs, lint_entities str_eqb props_equals li (exp_entities s j pre bs) = Ok fs ->
-              filter no_check fs = expected pre bs) /\
-  ((forall e, check_results chk e = []) ->
-   lint_entities str_eqb props_equals li (exp_entities s j pre bs) = Ok (expected pre bs)).
-Proof.
-  induction bs as [|b rest IH]; intros pre j Hs Hok.
-  - split; [intros fs H; inversion H; reflexivity|reflexivity].
-  - inversion Hok as [|? ? Hb Hrest]; subst.
-    rewrite jfile_text_cons in Hs.
-    destruct b as [[x|cs|cs key b1 sc b2 conts lastl nl]|gl]; cbn [exp_entities expected].
-    + apply IH; [rewrite <- app_assoc; exact Hs|exact Hrest].
-    + apply IH; [rewrite <- app_assoc; exact Hs|exact Hrest].
-    + destruct Hb as [Hk [u Hu]].
-      set (b := BEntity cs key b1 sc b2 conts lastl nl) in *.
-      set (e := mkEntity _ _ _ _ _ _).
-      destruct (IH (pre ++ text b) j) as [IHa IHb]; [rewrite <- app_assoc; exact Hs|exact Hrest|].
-      assert (Hp : e_position e 0%Z = Ok (lc (pre ++ ctext cs))).
-      { unfold e. cbn [e_position].
-        apply (entity_pos0 s (pre ++ ctext cs)
-                 (key ++ b1 ++ sc :: b2 ++ vraw conts lastl ++ eol nl ++ jfile_text rest)).
-        rewrite Hs. unfold b. cbn [jtext text]. norm_app. reflexivity. }
-      assert (Hv : ref_verdict str_eqb props_equals reference e = Ok (changed_by_ref key (vraw conts lastl)))
-        by (unfold e; eapply verdict; exact Hu).
-      assert (Hc : kcount str_eqb (Lint.e_key e) cur_ents = key_occurrences key all)
-        by (unfold e, cur_ents; cbn [Lint.e_key]; apply kcount_exp; exact Hk).
-      pose proof (lint_entity_exact str_eqb str_eqb_eq props_equals cur_ents chk reference e _ _
-                    eq_refl Hp Hv) as Hex.
-      fold li in Hex. rewrite Hc in Hex. unfold dup_finding, changed_finding in Hex. cbn [Lint.e_key e] in Hex.
-      rewrite (lint_entities_cons str_eqb props_equals cur_ents chk reference). fold li. rewrite Hex.
-      split.
-      * intros fs H.
-        destruct (mapM (resolve e) (check_results chk e)) as [cks|t] eqn:Em; [|discriminate].
-        destruct (lint_entities str_eqb props_equals li (exp_entities s j (pre ++ text b) rest))
-          as [fs'|t] eqn:El; [|discriminate].
-        inversion H; subst fs. rewrite !filter_app, (IHa fs' eq_refl), (nocheck_resolved e _ _ Em).
-        destruct (1 <? key_occurrences key all); destruct (changed_by_ref key (vraw conts lastl)); reflexivity.
-      * intros Hsil. rewrite (Hsil e). cbn [mapM]. rewrite (IHb Hsil). rewrite app_nil_r, app_assoc.
-        reflexivity.
-    + set (e := mkEntity _ _ _ _ _ _).
-      destruct (IH (pre ++ gtext gl) (S j)) as [IHa IHb]; [rewrite <- app_assoc; exact Hs|exact Hrest|].
-      assert (Hp : e_position e 0%Z = Ok (lc pre)).
-      { unfold e. cbn [e_position]. apply (entity_pos0 s pre (jtext (JG gl) ++ jfile_text rest)). exact Hs. }
-      assert (Hq : e_position e (-1)%Z = Ok (lc (pre ++ gtext gl))).
-      { unfold e. cbn [e_position]. apply (junk_pos_end s pre (gtext gl) (jfile_text rest)).
-        rewrite Hs. cbn [jtext]. norm_app. reflexivity. }
-      pose proof (lint_entity_junk_exact str_eqb props_equals cur_ents chk reference e _ _
-                    eq_refl Hp Hq) as Hex.
-      fold li in Hex. unfold junk_finding in Hex. cbn [Lint.e_id e] in Hex.
-      rewrite (lint_entities_cons str_eqb props_equals cur_ents chk reference). fold li. rewrite Hex.
-      split.
-      * intros fs H.
-        destruct (lint_entities str_eqb props_equals li (exp_entities s (S j) (pre ++ gtext gl) rest))
-          as [fs'|t] eqn:El; [|discriminate].
-        inversion H; subst fs. cbn [app filter no_check is_check f_message mkf negb].
-        rewrite (IHa fs' eq_refl). reflexivity.
-      * intros Hsil. rewrite (IHb Hsil). reflexivity.
-Qed.
-
-End E2E.
-
-(* ---- from the texts ------------------------------------------------------------------------ *)
-Lemma jsep_JB : forall bs, jsep (map JB bs) = separatedb bs.
-Proof.
-  induction bs as [|b bs IH]; [reflexivity|].
-  destruct b as [x|cs|cs key b1 sc b2 conts lastl nl]; cbn [map jsep separatedb]; rewrite IH.
-  - reflexivity.
-  - destruct bs as [|[x|cs'|cs' key' b1' sc' b2' conts' lastl' nl'] bs']; reflexivity.
-  - destruct bs; reflexivity.
-Qed.
-
-Lemma jadjacent_JB : forall bs, adjacent_ok bs -> jadjacent_ok (map JB bs).
-Proof.
-  intros bs H. unfold adjacent_ok, adjacent_okb, jadjacent_ok, jadjacent_okb in *.
-  rewrite jsep_JB. apply andb_true_iff in H. destruct H as [H1 H2]. rewrite H1. cbn.
-  destruct bs as [|[x|cs|cs key b1 sc b2 conts lastl nl] bs]; auto.
-Qed.
-
-Lemma legal_JB : forall bs, Forall legal_block bs -> Forall legal_jblock (map JB bs).
-Proof. induction 1; constructor; auto. Qed.
-
-Lemma count_junk_JB : forall bs, count_junk (jentries_of (map JB bs)) = 0.
-Proof.
-  intros bs. unfold count_junk, jentries_of.
-  rewrite (filter_ext _ (is_kind KJunk)) by (intros e; unfold is_kind; destruct (Entry.e_kind e); reflexivity).
-  rewrite jents_junk, jspans_JB. reflexivity.
-Qed.
-
-Lemma parse_blocks : forall bs j, Forall legal_jblock bs ->
-  props_entities (jfile_text bs) j (filter is_localizable (jentries_of bs)) =
-  exp_entities (jfile_text bs) j [] bs.
-Proof. intros bs j H. exact (ents_entities bs H [] [] j). Qed.
+(* the findings expected for the block list [all] against the reference block list [rref] *)
+Definition pexpected {Msg : Type} (all : list jblock) (rref : option (list jblock))
+  : list (@finding str Msg) :=
+  expected props_val (map pitem all) (option_map (map pitem) rref) [] (map pitem all).
 
 Section Top.
 Context {Msg : Type}.
 Variable chk : option (@checker str Msg).
 Variable all : list jblock.
-Variable rref : option (list block).
+Variable rref : option (list jblock).
 Variable j0 : nat.
-
 Hypothesis Hleg : Forall legal_jblock all.
 Hypothesis Hadj : jadjacent_ok all.
 Hypothesis Hkeys : Forall block_key_ok all.
 Hypothesis Href : match rref with
-                  | Some rbs => Forall legal_block rbs /\ adjacent_ok rbs /\
-                                Forall (fun b => block_key_ok (JB b)) rbs
+                  | Some rbs => Forall legal_jblock rbs /\ jadjacent_ok rbs
                   | None => True
                   end.
 
-Lemma lint_properties_unfold :
-  lint_properties j0 chk (jfile_text all) (option_map file_text rref) =
-  lint_entities str_eqb props_equals
-    (new_linter str_eqb (exp_entities (jfile_text all) j0 [] all) chk
-       match rref with
-       | Some rbs => Some (exp_entities (match rref with Some r => file_text r | None => [] end)
-                                        j0 [] (map JB rbs))
-       | None => None
-       end)
-    (exp_entities (jfile_text all) j0 [] all).
+Lemma texts_eq :
+  lint_properties j0 chk (jfile_text all) (option_map jfile_text rref) =
+  lint_text vp_props props_val walk_properties j0 chk
+    (items_text (map pitem all)) (option_map items_text (option_map (map pitem) rref)).
 Proof.
-  unfold lint_properties. destruct rref as [rbs|]; cbn [option_map].
-  - destruct Href as (L & A & _).
-    rewrite <- (jfile_text_JB rbs).
-    rewrite (blocks_properties_junk (map JB rbs) (legal_JB rbs L) (jadjacent_JB rbs A)).
-    cbn [bind fst snd].
-    rewrite count_junk_JB, Nat.add_0_r.
-    rewrite (blocks_properties_junk all Hleg Hadj). cbn [bind fst snd].
-    rewrite !parse_blocks by (auto using legal_JB). reflexivity.
-  - cbn [bind fst snd]. rewrite (blocks_properties_junk all Hleg Hadj). cbn [bind fst snd].
-    rewrite parse_blocks by exact Hleg. reflexivity.
+  unfold lint_properties. rewrite pitems_text. destruct rref as [rbs|]; cbn [option_map];
+    rewrite ?pitems_text; reflexivity.
 Qed.
 
-Lemma Href_keys : match rref with
-                  | Some rbs => Forall (fun b => block_key_ok (JB b)) rbs
-                  | None => True
-                  end.
-Proof. destruct rref; [tauto|exact I]. Qed.
+Lemma Href_items : match option_map (map pitem) rref with
+                   | Some rits => parsed vp_props walk_properties rits
+                   | None => True
+                   end.
+Proof. destruct rref as [rbs|]; cbn [option_map]; [apply parsed_properties; tauto|exact I]. Qed.
 
-(* silent checker: the result is exactly the expected list *)
 Theorem e2e_properties_silent :
   (forall e, check_results chk e = []) ->
-  lint_properties j0 chk (jfile_text all) (option_map file_text rref) =
-  Ok (expected all rref [] all).
+  lint_properties j0 chk (jfile_text all) (option_map jfile_text rref) = Ok (pexpected all rref).
 Proof.
-  intros Hsil. rewrite lint_properties_unfold.
-  exact (proj2 (lint_blocks chk all rref j0 Href_keys all [] j0 eq_refl Hkeys) Hsil).
+  intros Hsil. rewrite texts_eq.
+  exact (lint_text_items_silent vp_props props_val props_val_total walk_properties chk
+           (map pitem all) (option_map (map pitem) rref) j0
+           (parsed_properties all Hleg Hadj) (pitem_keys all Hkeys) Href_items Hsil).
 Qed.
 
-(* any checker: whatever the checks add, the other findings are exactly the expected list *)
 Theorem e2e_properties : forall fs,
-  lint_properties j0 chk (jfile_text all) (option_map file_text rref) = Ok fs ->
-  filter no_check fs = expected all rref [] all.
+  lint_properties j0 chk (jfile_text all) (option_map jfile_text rref) = Ok fs ->
+  filter no_check fs = pexpected all rref.
 Proof.
-  intros fs H. rewrite lint_properties_unfold in H.
-  exact (proj1 (lint_blocks chk all rref j0 Href_keys all [] j0 eq_refl Hkeys) fs H).
+  intros fs H. rewrite texts_eq in H.
+  exact (lint_text_items vp_props props_val props_val_total walk_properties chk
+           (map pitem all) (option_map (map pitem) rref) j0
+           (parsed_properties all Hleg Hadj) (pitem_keys all Hkeys) Href_items fs H).
 Qed.
-
 End Top.
 
 (* ---- a concrete file for the Example of Properties/C19.v ------------------------------------
@@ -483,4 +211,4 @@ Definition e2e_file : list jblock :=
   [JB (e2e_kv [107] [118]); JG [A [122; 122]];
    JB (BEntity [(35%N, A [32; 99])] (A [107]) [] 61%N [] [] (A [119]) true);
    JB (e2e_kv [109] [49])].
-Definition e2e_ref : list block := [e2e_kv [107] [118]; e2e_kv [109] [50]].
+Definition e2e_ref : list jblock := [JB (e2e_kv [107] [118]); JB (e2e_kv [109] [50])].
